@@ -462,11 +462,65 @@ def run_nsum(mp, rec, desc):
     finally:
         mp.prec = old
     verdict, units, tier, expect = Q.decide(v, oracle, p, TOL, rel=True)
-    if verdict == 'violated' and inside and dim == 1 and (method or 'r+s') in ('r+s', 's', 'shanks', 'r+s+e'):
+    if verdict == 'violated' and inside and dim == 1:
+        k, sev = classify_nsum(mp, desc, f, p, units)
+        if k:
+            ident = repr(sorted((kk, repr(x)) for kk, x in desc.items()))
+            rec.case(ident, True, cls=label + '/in')
+            rec.event('decided by: ' + tier)
+            rec.violation(k, 'nsum off by 2^%.1f * 2^-p * |V| (allowed 2^%d)' % (units, TOL), dict(desc, why_outside=[]),
+                          observed=Q.show(v), expected=expect, severity=sev)
+            return
+    judge(rec, desc, v, oracle, p, inside, why, label, nontriv)
+
+
+def classify_nsum(mp, desc, f, p, units):
+    """mechanism key (+ severity) of a wrong 1-D nsum value, from what the library itself reports on a re-run"""
+    method = desc.get('method') or 'r+s'
+    kw = dict(desc.get('kw', {}))
+    if desc.get('method'):
+        kw['method'] = desc['method']
+    # 1. Shanks: converged column, rounding noise amplified
+    if method in ('r+s', 's', 'shanks', 'r+s+e'):
         k = classify_shanks(mp, desc, f, p)
         if k:
-            desc = dict(desc, _key=k)
-    judge(rec, desc, v, oracle, p, inside, why, label, nontriv)
+            return k, round(min(units, 1e6), 1)
+    # 2. did adaptive_extrapolation give up at maxterms and hand back its best estimate without saying so?
+    old = mp.prec
+    try:
+        mp.prec = p
+        try:
+            mp.nsum(f, *[_ival(mp, *r) for r in desc['range']], strict=True, **kw)
+            gave_up = False
+        except mp.NoConvergence:
+            gave_up = True
+        except Exception:
+            gave_up = False
+    finally:
+        mp.prec = old
+    if gave_up:
+        return 'C27/nsum/not-converged-at-maxterms-best-estimate-returned-silently', round(min(units, 1e6), 1)
+    # 3. Euler-Maclaurin: is the tail integral (quad over [N, inf], error estimate accepted) itself off?
+    sd = desc['series']
+    if method in ('e', 'euler-maclaurin', 'r+s+e') and sd['kind'] == 'ratl' and sd['form'] == 'hz' and not sd.get('alt'):
+        a = desc['range'][0][0]
+        N = int(a) + 10
+        c, be = Q.dy(sd['c']), Q.dy(sd['beta'])
+        s_ = sd['s'] if isinstance(sd['s'], int) else Q.dy(sd['s'])
+        try:
+            mp.prec = p + 10
+            q, est = mp.quad(f, [N, mp.inf], error=True)
+            accepted = est <= mp.eps / 8
+        except Exception:
+            accepted = None; q = None
+        finally:
+            mp.prec = old
+        if q is not None:
+            orc = Q.RefOracle(lambda rmp: Q.rq(rmp, c) * (N + Q.rq(rmp, be)) ** (1 - Q.rq(rmp, s_)) / (Q.rq(rmp, s_) - 1))
+            vd, u2, _, _ = Q.decide(q, orc, p, TOL, rel=False)
+            if vd == 'violated':
+                return 'C27/nsum/euler-maclaurin/tail-integral-quad-inaccurate-on-algebraic-decay', round(units / p, 3)
+    return None, None
 
 
 # ---------------------------------------------------------------------------------------
@@ -677,8 +731,13 @@ def run_direct(mp, rec, desc):
                 qv = A + sum(a * q ** k for a, q in comps)
                 seq.append(mp.mpf(qv.numerator) / qv.denominator)
             T = mp.shanks(seq)
-            v = T[-1][-1]
             oracle = A
+            if len(T) != n - 1 - ((n - 1) & 1) or len(T[-1]) != len(T):
+                # an exactly zero difference ended the table early (documented behaviour): no estimate of the full order
+                rec.case(repr(desc), False, cls='direct/shanks/table-truncated')
+                rec.note('shanks table truncated by an exactly zero difference', desc)
+                return
+            v = T[-1][-1]
             if desc.get('extra', 0):
                 inside = False; why.append('more terms than the exactness order: division by a rounding-noise difference (documented)')
             if len(T[-1]) != 2 * m:
@@ -1026,7 +1085,10 @@ def gen_other(r, cell, p):
             deg = r.choice([1, 2, 3])
             P = [rd(r, -5, 5, 1) for _ in range(deg)] + [rd_nz(r, 1, 5, 1)]
             Qc = [rd(r, 1, 5, 1) for _ in range(deg)] + [rd_nz(r, 1, 5, 1)]
-            return {'kind': 'limit', 'lim': {'form': 'ratfun', 'P': P, 'Q': Qc, 'at': r.choice(['inf', 'inf', '-inf'])}, 'prec': p,
+            at = r.choice(['inf', 'inf', '-inf'])
+            if at == '-inf':       # keep Q(-n) = sum |c_j| n^j > 0 at every sample point
+                Qc = [[c[0] * (-1) ** j, c[1]] for j, c in enumerate(Qc)]
+            return {'kind': 'limit', 'lim': {'form': 'ratfun', 'P': P, 'Q': Qc, 'at': at}, 'prec': p,
                     'kw': r.choice([{}, {}, {'method': 'r'}, {'method': 'r+s'}])}
         if sub == 'zero':
             form = r.choice(['sinc', 'xsin', 'expm1'])
@@ -1091,6 +1153,11 @@ WITNESSES = [
     {'kind': 'nsum', 'series': {'kind': 'geom', 'cls': 'geom-alt', 'c': [1, 0], 'q': [-3, -2]}, 'range': [[0, '+inf']], 'prec': 146},
     {'kind': 'nsum', 'series': {'kind': 'geom', 'cls': 'geom-alt', 'c': [1, 0], 'q': [-7, -3]}, 'range': [[0, '+inf']], 'prec': 221, 'method': 's'},
     {'kind': 'nsum', 'series': {'kind': 'geom', 'cls': 'geom-alt', 'c': [1, 0], 'q': [-3, -2]}, 'range': [[0, '+inf']], 'prec': 53},
+    {'kind': 'nsum', 'series': {'kind': 'geom', 'cls': 'geom', 'c': [15, -2], 'q': [15, -4]}, 'range': [[2, '+inf']], 'prec': 155},
+    {'kind': 'nsum', 'series': {'kind': 'ratl', 'cls': 'ratl', 'form': 'hz', 'c': [-14, -2], 'beta': [1, -1], 's': 2}, 'range': [[10, '+inf']], 'prec': 30},
+    {'kind': 'nsum', 'series': {'kind': 'ratl', 'cls': 'nonint', 'form': 'hz', 'c': [-14, -2], 'beta': [1, -1], 's': [3, -1]}, 'range': [[0, '+inf']],
+     'prec': 53, 'method': 'euler-maclaurin'},
+    {'kind': 'nprod', 'prod': {'form': 'wallis'}, 'range': [1, '+inf'], 'prec': 100, 'kw': {'method': 'e'}},
 ]
 
 PRECS = [30, 40, 53, 64, 80, 100, 113, 120, 146, 150, 200, 221, 250, 281, 300]
@@ -1098,7 +1165,7 @@ N_SHARDS = 16
 
 
 def shards(tier, seed):
-    n = 250 if tier == 'quick' else 3200
+    n = 600 if tier == 'quick' else 6000
     return [{'n': n} for _ in range(N_SHARDS)]
 
 
@@ -1118,14 +1185,14 @@ def run_shard(shard, rec):
     anchors = [E_ + n for n in ('richardson', 'shanks', 'levin_class.run', 'cohen_alt_class.update', 'cohen_alt_class.update_psum', 'sumap', 'sumem',
                                 'adaptive_extrapolation', 'nsum', 'standardize', 'fold_finite', 'standardize_infinite', 'fold_infinite', 'nprod',
                                 'limit')]
-    budget = {'quick': 55.0, 'thorough': 600.0}[shard['tier']]
+    budget = {'quick': 200.0, 'thorough': 2000.0}[shard['tier']]
     with AnchorCount(rec, anchors):
         if shard['shard'] == 0:
             for w in WITNESSES:
                 run_desc(mp, rec, dict(w))
             rec.event('fixed witnesses run', len(WITNESSES))
         idx = shard['shard'] * 7
-        t0 = time.time()
+        t0 = time.process_time()
         for j in range(shard['n']):
             p = pick_prec(r, idx + j)
             if j % 2 == 0:
@@ -1146,14 +1213,14 @@ def run_shard(shard, rec):
                 desc = gen_other(r, cell, p)
                 if desc is None:
                     continue
-            t1 = time.time()
+            t1 = time.process_time()
             run_desc(mp, rec, desc)
-            rec.maximum('seconds for one case [%s]' % cell, round(time.time() - t1, 2), {'prec': desc['prec']})
-            if time.time() - t0 > budget:
+            rec.maximum('cpu seconds for one case [%s]' % cell, round(time.process_time() - t1, 2), {'prec': desc['prec']})
+            if time.process_time() - t0 > budget:
                 rec.event('shards stopped by their time budget')
                 rec.note('cases done when the time budget ran out', [shard['shard'], j])
                 break
-    rec.note('shard seconds', [shard['shard'], round(time.time() - rec.t0, 1)], cap=20)
+    rec.note('shard seconds', [shard['shard'], round(time.process_time(), 1)], cap=20)
 
 
 def required(agg, tier):
